@@ -50,6 +50,21 @@ def editedWords (aLen bLen : Nat) (m : List (Nat × Nat)) : List Nat × List Nat
   ((List.range aLen).filter (fun i => !(m.map Prod.fst).contains i),
    (List.range bLen).filter (fun j => !(m.map Prod.snd).contains j))
 
+/-- strictly increasing in both coordinates -/
+def pairsIncreasing : List (Nat × Nat) → Bool
+  | [] => true
+  | [_] => true
+  | p :: q :: rest => p.1 < q.1 && p.2 < q.2 && pairsIncreasing (q :: rest)
+
+/-- is `m` an answer `match_words` may give for the key sequences `a`, `b`?  (The property asks for index
+pairs strictly increasing in both coordinates whose words are equal and whose number is the length of a
+longest common subsequence; among several longest matchings it fixes none.)  The LCS length is the length
+of the modelled function's own result (`lcs_attained`). -/
+def matchAccept (a b : List (List Nat)) (m : List (Nat × Nat)) : Bool :=
+  pairsIncreasing m &&
+  m.all (fun p => p.1 < a.length && p.2 < b.length && a.getD p.1 [] == b.getD p.2 []) &&
+  m.length == ((matchWords a b).getD []).length
+
 /-- `char::is_ascii_whitespace` -/
 def isAsciiWs (c : Nat) : Bool := c == 9 || c == 10 || c == 12 || c == 13 || c == 32
 
